@@ -849,3 +849,46 @@ C18_DBAL_SUBSAMPLE = dict(
                    "logsumexp", ".newaxis", "scores"],
 )
 ALL += [C18_RANDOM_SCORER, C18_RANDOM_HOLDOUT, C18_BALANCED_HOLDOUT, C18_DBAL_SUBSAMPLE]
+
+# FixedSizeSmoother / OptimalSizeSmoother._smooth_plates: a plate is its boolean selection vector over the screen's rows;
+# screen.subset(v).to_screen() is ANY request-free function mk_subset of the screen and the vector; OptimalSizeSmoother's three
+# numpy statements that pick the size are ANY request-free function opt_size of the list of plate sizes (what they compute is C13's).
+_VEC = {"p": "list bool"}
+_SIZE_SMOOTH = dict(
+    _C18, file="src/batchie/retrospective.py", func="_smooth_plates", pyparams=["self", "screen", "rng"], returns="Scr",
+    typed_loop_vars=True, ignore=["logger.info(__a)"],
+    vars={"results": "list list bool", "plate": "list bool", "new_indices": "list Z", "new_selection_vector": "list bool",
+          "final_selection_vector": "list bool", "optimal_size": "Z"},
+)
+_SIZE_SMOOTH_PRIMS = [
+    ("__s.plates", "scr_plates {s}", "list list bool", _SCR),
+    ("__p.size", "count_true {p}", "Z", _VEC),
+    ("__p.selection_vector", "{p}", "list bool", _VEC),
+    ("np.arange(__s.size)[__p.selection_vector]", "positions_of (scr_size {s}) {p}", "list Z", {"s": "Scr", "p": "list bool"}),
+    _RNG_CHOICE,
+    ("np.isin(np.arange(__s.size), __i)", "mask_of (scr_size {s}) {i}", "list bool", {"s": "Scr", "i": "list Z"}),
+    ("Plate(screen, __v)", "{v}", "list bool", {"v": "list bool"}),          # a plate of `screen` is its selection vector
+    ("np.zeros(__s.size, dtype=bool)", "mask_zeros (scr_size {s})", "list bool", _SCR),
+    ("__a | __b", "bor_mask {a} {b}", "list bool", {"a": "list bool", "b": "list bool"}),
+    ("__s.subset(__v).to_screen()", "!rp_lift (mk_subset {s} {v})", "Scr", _SV),
+]
+C18_FIXED_SIZE = dict(
+    _SIZE_SMOOTH, cls="FixedSizeSmoother", name="src_fixed_size_smooth",
+    params=[("Scr", "Type"), ("scr_size", "Scr -> Z"), ("scr_plates", "Scr -> list (list bool)"),
+            ("mk_subset", "Scr -> list bool -> result Scr"), ("plate_size", "Z"), ("screen", "Scr")],
+    prims=[("self.plate_size", "plate_size", "Z")] + _SIZE_SMOOTH_PRIMS,
+)
+_OPTIMAL_RUN = """
+plate_sizes = np.sort(np.array([plate.size for plate in screen.plates]))
+i = np.argmax(plate_sizes * (len(plate_sizes) - np.arange(len(plate_sizes))))
+optimal_size = plate_sizes[i]
+"""
+C18_OPTIMAL_SIZE = dict(
+    _SIZE_SMOOTH, cls="OptimalSizeSmoother", name="src_optimal_size_smooth", unused_params=["self"],
+    params=[("Scr", "Type"), ("scr_size", "Scr -> Z"), ("scr_plates", "Scr -> list (list bool)"),
+            ("mk_subset", "Scr -> list bool -> result Scr"), ("opt_size", "list Z -> result Z"), ("screen", "Scr")],
+    prims=_SIZE_SMOOTH_PRIMS,
+    # [plate.size for plate in screen.plates] = map count_true (scr_plates screen); np.argmax of an empty array raises
+    stmt_prims=[(_OPTIMAL_RUN, "optimal_size", "!rp_lift (opt_size (map count_true (scr_plates screen')))", "Z")], globals=["np", "len"],
+)
+ALL += [C18_FIXED_SIZE, C18_OPTIMAL_SIZE]
